@@ -60,17 +60,23 @@ Definition methylated (refbase qbase : Z) : option bool :=
   else if refbase =? cG then (if qbase =? cA then Some true else if qbase =? cG then Some false else None)
   else None.
 
-Definition table (m : bool) := if m then ctx_meth else ctx_unmeth.
+(* the state of a TAPS object that position_to_context reads: the two context tables built by __init__ *)
+Record taps := mkTaps { tp_unmeth : list (list Z * Z); tp_meth : list (list Z * Z) }.
+Definition taps0 : taps := mkTaps ctx_unmeth ctx_meth.            (* TAPS() *)
+Definition table_of (t : taps) (m : bool) := if m then tp_meth t else tp_unmeth t.
 
-Definition symbol (cached : bool) (ref : list Z) (pos refbase obs : Z) : Z :=
+(* the letter is a function of the TAPS tables, the reference OF THE MOLECULE'S CONTIG, the position on that contig,
+   the expected reference base and the observed base -- nothing else *)
+Definition symbol_t (t : taps) (cached : bool) (ref : list Z) (pos refbase obs : Z) : Z :=
   match context cached ref pos refbase with
   | None => cDot
   | Some ctx =>
       match methylated refbase (upper obs) with
       | None => cDot
-      | Some m => match lookup ctx (table m) with Some l => l | None => cDot end
+      | Some m => match lookup ctx (table_of t m) with Some l => l | None => cDot end
       end
   end.
+Definition symbol := symbol_t taps0.
 
 (* ---- reads, fragments (abstraction of pysam.AlignedSegment: what get_aligned_pairs(matches_only=True,
    with_seq=True) yields, plus orientation and reference_start/reference_end) *)
@@ -152,10 +158,10 @@ Definition safe_span (c : cfg) (f : frag) : option (option Z * option Z) :=
        end.
 
 (* Fragment.get_consensus as used by Molecule.get_consensus: None = fragment contributes nothing
-   (skipped by the has_R1/has_R2 test, or a ValueError swallowed by the try) *)
+   (skipped by `dove_safe and (not has_R2 or not has_R1)`, or a ValueError swallowed by the try) *)
 Definition frag_cons (c : cfg) (f : frag) : option (list (Z * (Z * Z))) :=
   let '(o1, o2) := f in
-  if (negb (c_unsafe c) && negb (has o2)) || negb (has o1) then None
+  if negb (c_unsafe c) && (negb (has o2) || negb (has o1)) then None
   else match safe_span c f with
        | None => None
        | Some (lo, hi) =>
@@ -200,14 +206,27 @@ Record call := mkCall { k_pos : Z; k_cons : Z; k_letter : Z; k_cov : Z }.
 Inductive result (A : Type) := OK (a : A) | Raise.   (* Raise: AssertionError (strand is None) *)
 Arguments OK {A} a. Arguments Raise {A}.
 
-Definition mk_call (c : cfg) (ref : list Z) (e : Z * Z * Z) : call :=
-  let '(pos, b, cov) := e in mkCall pos b (symbol (c_cached c) ref pos (expected c) b) cov.
+Definition mk_call_t (t : taps) (c : cfg) (ref : list Z) (e : Z * Z * Z) : call :=
+  let '(pos, b, cov) := e in mkCall pos b (symbol_t t (c_cached c) ref pos (expected c) b) cov.
 
-Definition calls (c : cfg) (ref : list Z) (fs : list frag) : result (list call) :=
+Definition calls_t (t : taps) (c : cfg) (ref : list Z) (fs : list frag) : result (list call) :=
   let cs := consensus c fs in
   match c_strand c, cs with
   | None, _ :: _ => Raise
-  | _, _ => OK (map (mk_call c ref) cs)
+  | _, _ => OK (map (mk_call_t t c ref) cs)
+  end.
+Definition mk_call := mk_call_t taps0.
+Definition calls := calls_t taps0.
+
+(* ---- a history: molecules (each with the reference of ITS contig) processed one after the other by ONE TAPS
+   object.  obtain_methylation_calls / position_to_context only READ the object: the state handed on is unchanged *)
+Record molecule := mkMol { m_cfg : cfg; m_ref : list Z; m_frags : list frag }.
+Definition process (t : taps) (m : molecule) : taps * result (list call) :=
+  (t, calls_t t (m_cfg m) (m_ref m) (m_frags m)).
+Fixpoint history (t : taps) (ms : list molecule) : list (result (list call)) :=
+  match ms with
+  | [] => []
+  | m :: ms' => let '(t', r) := process t m in r :: history t' ms'
   end.
 
 (* ---- set_methylation_call_tags *)
@@ -257,19 +276,27 @@ Definition enc_call (k : call) : Val := VL [VZ (k_pos k); VZ (k_cons k); VZ (k_l
 Definition enc_tot (t : totals) : list Val :=
   [VZ (t_MC t); VZ (t_uC t); VZ (t_sZ t); VZ (t_sz t); VZ (t_sX t); VZ (t_sx t); VZ (t_sH t); VZ (t_sh t)].
 
+Definition dec_mol (v : Val) : molecule := mkMol (dec_cfg v) (dec_ref v) (dec_frags v).
+Definition enc_result (fs : list frag) (r : result (list call)) : Val :=
+  match r with
+  | Raise => VL [VZ (-1)]
+  | OK cs => VL [VL (map enc_call cs);
+                 VL (map (fun r => VL (ofZs (xm cs r) :: enc_tot (tot cs))) (reads_of fs))]
+  end.
+
 Definition run_C14 (mode : Z) (v : Val) : Val :=
   let c := dec_cfg v in let ref := dec_ref v in let fs := dec_frags v in
   match mode with
   | 0 => if negb (wf fs) then VL [VZ (-2)]           (* outside the modelled domain *)
-         else match calls c ref fs with
-              | Raise => VL [VZ (-1)]
-              | OK cs => VL [VL (map enc_call cs);
-                             VL (map (fun r => VL (ofZs (xm cs r) :: enc_tot (tot cs))) (reads_of fs))]
-              end
+         else enc_result fs (calls c ref fs)
   | 1 => ofB (wf fs)
   | 3 => (* the table alone: [context codes] -> [unmeth letter or 0; meth letter or 0] *)
          let k := getZs v in
          VL [VZ (match lookup k ctx_unmeth with Some l => l | None => 0 end);
              VZ (match lookup k ctx_meth with Some l => l | None => 0 end)]
+  | 4 => (* a history of molecules through one TAPS object: v = list of mode-0 inputs *)
+         let ms := map dec_mol (getL v) in
+         if negb (forallb (fun m => wf (m_frags m)) ms) then VL [VZ (-2)]
+         else VL (map (fun mr => enc_result (m_frags (fst mr)) (snd mr)) (combine ms (history taps0 ms)))
   | _ => bad
   end.
